@@ -187,7 +187,7 @@ class _Stat:
             self.st_size = DIR_SIZE
             self.st_mtime_ns = 0
         else:
-            self.st_mode = _stat.S_IFREG | 0o644
+            self.st_mode = _stat.S_IFREG | (0o644 if n.perm is None else n.perm)
             self.st_size = eng.size_of(n.cid)
             self.st_mtime_ns = n.mtime
         self.st_ino = n.ino
@@ -541,6 +541,9 @@ class RealFS:
 
     def utime(self, p, mtime):
         _os.utime(p, ns=(mtime, mtime))
+
+    def chmod(self, p, perm):
+        _os.chmod(p, perm)
 
     def mkdir(self, p):
         _os.mkdir(p)
